@@ -332,6 +332,8 @@ def run(cx, rep):
                    mod.loc(c), sample={"class": cn, "key_expr": ktxt})
     rep.rule("C15.15", "`Record<K, V>` and `{[P in K]: V}` decide alike which members of K become declared properties")
     key_classifier_agreement_rule(cx, rep, "C15.15")
+    rep.rule("C15.16", "an index signature printed next to declared properties uses index-signature syntax (a mapped member must stand alone)")
+    mixed_object_member_rule(cx, rep, fam, mod, "C15.16")
     rep.rule("C15.14", "a property name is printed bare only if TypeScript reads it as an identifier")
     bare_key_rule(cx, rep, mod, "C15.14")
     rep.rule("C15.13", "a chain of members joined by | or & is parenthesised where it is built")
@@ -908,3 +910,42 @@ def _some_variants(F, g, depth=2, seen=None):
 def _kids(n):
     from facts import children
     return list(children(n))
+
+
+# ---------------------------------------------------------------------------------------------------- C15.16
+def mixed_object_member_rule(cx, rep, fam, mod, rid):
+    """`{ [K in X]: T }` is a MAPPED type: TypeScript allows nothing else between the braces.  An object type with
+    declared properties and an index signature has to be written `{ a: string, [k: X]: T }` (or as an intersection).
+    Decided for the class that prints declared properties and index members into one pair of braces: where it prints
+    an index member as a mapped member (a template whose text starts with `[` and contains ` in `), it is known at
+    that point that no declared property is printed."""
+    n = 0
+    for cname in sorted(fam.concrete()):
+        ixf = ts_common.index_signature_field(fam, cname)
+        _, m = fam.resolve_method(cname, "describeTypeExpr")
+        if not ixf or not m or m["function"].get("body") is None:
+            continue
+        fn = m["function"]
+        mapped_sites = []
+        for x in tsast.walk_inl(mod, cname, fn, depth=2):
+            if x["type"] == "TemplateLiteral":
+                qs = [q.get("raw", "") or (q.get("cooked") or "") for q in x.get("quasis", [])]
+                if qs and qs[0].lstrip().startswith("[") and any(" in " in q for q in qs):
+                    mapped_sites.append(x)
+        if not mapped_sites:
+            continue
+        n += 1
+        prints_props = any(x["type"] == "CallExpression" and "this.properties" in s(x) and x is not None for x in walk(fn)) or "this.properties" in s(fn["body"]) if False else any(
+            y["type"] == "MemberExpression" and s(y).startswith("this.properties") for y in walk(fn))
+        # is `no declared properties` established where the index members are produced?
+        calls = [x for x in walk(fn) if x["type"] == "CallExpression" and ("this.%s" % ixf) in s(x)]
+        guarded = False
+        for c_ in calls:
+            for a_, v_ in ts_common.known_atoms(fn, c_).items():
+                a2 = a_.replace(" ", "")
+                if ("properties" in a2 or "sortedKeys" in a2 or "props" in a2) and "length" in a2 and ((a2.endswith("===0") or a2.endswith("==0")) and v_ is True or (a2.endswith(">0") or a2.endswith("!==0")) and v_ is False):
+                    guarded = True
+        rep.ob(rid, "%s/mapped-member-next-to-properties" % cname, (not prints_props) or guarded,
+               "%s.describeTypeExpr prints its index signatures as mapped members `[K in ..]: T` into the same braces as its declared properties: `{ a: string, [K in string]: string }` is not TypeScript (a mapped type admits no other member), so the description of an object with declared properties and an index signature does not compile back" % cname,
+               mod.loc(mapped_sites[0]), sample={"class": cname})
+    rep.floor(rid, "classes printing index members as mapped members", n, 1)
